@@ -32,7 +32,7 @@ PROP = {
              "protobuf round trip; wrong stage, nil/other signature, response with another id / another sum / not JSON, lowercase task address, "
              "from != operator, bad bech32, nil info, explicitly encoded empty byte fields) and challenges (wrong task hash / response hash / "
              "operator) attempted at EVERY epoch offset from task creation to past the challenge period; the epoch clock is advanced through the "
-             "real x/epochs BeginBlocker with all five subscribers. 13 directed cases first (2 empty-signature regression scenarios, 1 tagged signer-not-opted-in, 6 deregister-timing boundaries, "
+             "real x/epochs BeginBlocker with all five subscribers. 15 directed cases first (2 with three AVSs of different stake whose tasks end in the same epoch, 2 empty-signature regression scenarios, 1 signer-not-opted-in regression scenario, 6 deregister-timing boundaries, "
              "4 window sweeps with all-zero / mixed periods and colliding task addresses on register and update); 4 of 5 generated cases follow "
              "the life cycle (register, keys, opt-in, epoch, tasks, then targeted phase one/two/challenge per epoch), 1 of 5 is an unstructured "
              "stream. distinct = distinct sha1 of the whole case; non-trivial = at least two accepted operations of two different kinds"),
@@ -41,9 +41,10 @@ PROP = {
                     "for ALL operation histories: AVS address and task-contract address uniqueness (invariant by induction over histories), task "
                     "ids per contract consecutive from 1, opt-in requirements, and accept <-> condition characterisations of phase one, phase two "
                     "and challenge whose right-hand sides (phase1_cond, phase2_cond, challenge_cond) are the very booleans the monitors evaluate on "
-                    "the implementation's observed states. Statistics: the signer half is proved (C20_statistics_partial + C20_statistics_signers + the invariant C20_results_always_signed, "
-                    "after /repo 6c134d2 rejected empty signatures; C20_epoch_end_never_panics), the non-signer half is FALSE of the faithful model "
-                    "(C20_statistics_signer_not_opted_in_refuted, replayed on the real code by a tagged directed scenario, known finding). The model is tied to the code by running both on the same generated histories and "
+                    "the implementation's observed states. Statistics are proved in full for the whole epoch-end step over all histories (C20_statistics: signers = exactly the operators with a stored result due now, "
+                    "non-signers = exactly snapshot minus signers, never panics), using injectivity of the key encodings (C20_key_encoding_injective) and the "
+                    "invariants C20_tasks_keyed / C20_results_in_snapshot / C20_results_always_signed; the two former refutations are regression Examples after the repairs "
+                    "(/repo 6c134d2, repo_patches/fix-c20-signer-must-be-opted-in.patch). The model is tied to the code by running both on the same generated histories and "
                     "comparing result class and every AVS sub-store after every operation."),
     "trusted_base": KERNEL_TB + [
         "modelled, not verified (hand-written Gallina transcription, tied by differential execution): x/avs/keeper/{keeper,avs,task,"
